@@ -34,7 +34,7 @@ POS_TOKENS = ['1', '2', '0.5', '.5', '+1', '1.', '1e0', '3.25', '1E1', '0.1', '7
 NAN_TOKENS = ['nan', 'NaN', 'NAN', '-nan', '+nan']
 INF_TOKENS = ['INF', '-INF', 'inf', '-inf', 'Infinity', '+INF']
 WORDS = ['alpha', 'Beta', 'gamma3', 'delta_x', 'eps', 'zeta', 'Eta', 'theta', 'iota', 'kappa', 'lam', 'mu']
-ODD_WORDS = ['\u00dcn\u00ef-c\u00f6de', 'a.b-c', 'x&y', 'p<q>r', 'quo"te', "it's", '\u4e2d\u6587']
+ODD_WORDS = ['50%25', 'a%20b', 'c+d', 'back\\slash', '\u00dcn\u00ef-c\u00f6de', 'a.b-c', 'x&y', 'p<q>r', 'quo"te', "it's", '\u4e2d\u6587']
 
 
 def esc(v):
@@ -376,6 +376,8 @@ def render_geometry(g, geom):
         parts.append(g.note() + g.el(p['tag'], [('material', p['material']), ('count', str(p['count_attr']))], body))
     if g.chance(0.15):
         parts.append(g.extra())
+    if g.opts.get('unsupported_native') and g.chance(0.1):
+        parts.append(g.el('unknown_primitive', [('count', '0')], None))   # a mesh child the loader does not know
     gextra = ''
     if geom['double_sided'] is not None:
         gextra = g.el('extra', [], g.el('technique', [('profile', 'MAYA')],
@@ -404,8 +406,11 @@ def render_light(g, L):
     body = g.el('color', [], g.join(L['color']))
     for nme, tok in L['params']:
         body += g.el(nme, [], tok if not g.odd_ws else g.rng.choice(['', ' ']) + tok + g.rng.choice(['', '\n']))
+    kind_tag = L['kind']
+    if g.opts.get('unsupported_native') and g.chance(0.15):
+        kind_tag = 'area'                                     # a light type the loader does not know
     return g.el('light', [('id', L['id']), ('name', g.word() if g.chance(0.5) else None)],
-                g.asset_child() + g.el('technique_common', [], g.el(L['kind'], [], body)) +
+                g.asset_child() + g.el('technique_common', [], g.el(kind_tag, [], body)) +
                 (g.el('technique', [('profile', 'OTHER')], g.el('param', [('name', 'intensity')], g.num())) if g.chance(0.1) else '') +
                 g.maybe_extra())
 
@@ -433,6 +438,11 @@ def render_camera(g, C):
 
 def gen_image(g):
     path = g.rng.choice(['./tex/%s.png', '%s.jpg', '../images/%s.tga']) % g.word()
+    if g.chance(0.3):
+        # the path is exposed as written: percent-escapes, spaces, backslashes, '+', query / fragment characters
+        path = g.rng.choice(['textures/wood%%20grain-%s.png', 'file:///C:/My%%20Models/%s.png', 'C:\\tex\\%s.png',
+                             'tex/a+b %s.png', 'tex/%s.png?v=1#top', '%%41%%2F%s%%25.png', 'tex/100%%/%s.png',
+                             'tex/caf%%C3%%A9-%s.png']) % g.word()
     r = g.rng.random()
     if r < 0.06:
         path = None                                   # <init_from/>
@@ -534,6 +544,8 @@ def render_effect(g, E):
             inner = g.el('texture', [('texture', val[1]), ('texcoord', val[2])])
         else:
             inner = g.el('param', [('ref', val[1])])
+        if g.opts.get('unsupported_native') and g.chance(0.08):
+            inner = g.el('unknown_value', [], g.num())        # a shading parameter form the loader does not know
         sh += g.el(nme, attrs, inner)
     tech = g.el(E['shader'], [], sh)
     if E['bump'] is not None:
@@ -714,6 +726,11 @@ def gen_node(g, ctx, depth, inst_targets):
 
 def render_node(g, N):
     body = ''
+    if g.opts.get('unsupported_native') and g.chance(0.35):
+        # a COLLADA element the scene loader does not support, directly inside <node>
+        body += g.rng.choice([g.el('skew', [('sid', 'sk')], g.join(g.nums(7))),
+                              g.el('instance_physics_model', [('url', '#none')]),
+                              g.el('unknown_native_thing', [], None)])
     if g.opts.get('foreign_in_nodes') and g.chance(0.35):
         # a vendor element that is not wrapped in <extra> (the loader reports it: only for the namespace property)
         body += '<v:thing xmlns:v="%s" v:a="1"><v:inner/></v:thing>' % esc(g.foreign_ns)
